@@ -63,6 +63,12 @@ CHILD_KINDS = {'M': 'FCLG', 'F': 'FCLG', 'C': 'FCLG', 'L': 'LG', 'G': 'LG'}
 MODS = ['os', 'sys', 're', 'io', 'abc', 'ast', 'json', 'math', 'time', 'types', 'errno', 'stat',
         'glob', 'copy', 'enum', 'heapq']
 IND = '    '
+# distractors: statements/expressions that spell `x` without binding or reading the identifier,
+# placed right before every use (style 'list+attrstore' etc.; '+mix' = all of them)
+DISTRACTORS = ['attrstore', 'augattr', 'attrload', 'kwarg', 'dictkey']
+_D_STMT = {'attrstore': 'o.\x01A\x02x = 99', 'augattr': 'o.\x01A\x02x += 1',
+           'attrload': 'o.\x01A\x02x', 'kwarg': 'd(\x01A\x02x=0)', 'dictkey': "{'\x01A\x02x': 0}"}
+_D_EXPR = dict(_D_STMT, attrstore='o.\x01A\x02x', augattr='o.\x01A\x02x')
 
 
 def shape_id(scope):
@@ -146,7 +152,10 @@ class Render:
     `dead` the use numbers that are replaced by the literal 0 (uses that raise NameError)."""
 
     def __init__(self, shape, style='list', dead=()):
+        style, _, distract = style.partition('+')
         self.style = style
+        self.distract = DISTRACTORS if distract == 'mix' else [distract] if distract else []
+        self.distractors = []   # (line, col) of the x in every distractor
         self.dead = set(dead)
         self.ntag = 0
         self.nuse = 0
@@ -159,7 +168,7 @@ class Render:
         self.dels = []
         out = []
         pos = 0
-        for m in re.finditer(r'\x01([BUDX])(\d*)\x02', raw):
+        for m in re.finditer(r'\x01([BUDXA])(\d*)\x02', raw):
             out.append(raw[pos:m.start()])
             pos = m.end()
             text = ''.join(out)
@@ -171,6 +180,8 @@ class Render:
                 self.uses[int(m.group(2))] = (line, col)
             elif m.group(1) == 'D':
                 self.decls.append((line, col))
+            elif m.group(1) == 'A':
+                self.distractors.append((line, col))
             else:
                 self.dels.append((line, col))
         out.append(raw[pos:])
@@ -268,6 +279,8 @@ class Render:
         lines = []
 
         def use(i=ind):
+            for dk in self.distract:
+                lines.append(i + _D_STMT[dk])
             lines.append(i + self.U())
 
         def children(part='both'):
@@ -331,11 +344,13 @@ class Render:
 
         if pat == 'before':
             el.append(walrus())
+        el.extend(_D_EXPR[dk] for dk in self.distract)
         el.append(self.U())
         for c in kids:
             el.append(self.child_expr(c))
         if pat == 'after':
             el.append(walrus())
+            el.extend(_D_EXPR[dk] for dk in self.distract)
             el.append(self.U())
         return '(' + ', '.join(el) + ',)'
 
@@ -409,8 +424,8 @@ class _Occ(ast.NodeVisitor):
 
     def _body(self, stmts):
         for s in stmts:
-            simple = isinstance(s, (ast.Assign, ast.Expr, ast.Import, ast.Delete, ast.Global,
-                                    ast.Nonlocal, ast.Pass))
+            simple = isinstance(s, (ast.Assign, ast.AugAssign, ast.Expr, ast.Import, ast.Delete,
+                                    ast.Global, ast.Nonlocal, ast.Pass))
             old = self.top
             self.top = simple
             self.visit(s)
@@ -652,7 +667,8 @@ def execute(text, modtags):
         code = compile(text, '<c03>', 'exec')
     except (SyntaxError, ValueError) as e:
         return 'nocompile', str(e)
-    g = {'u': u, 'cm': _CM, '__name__': 'c03prog'}
+    g = {'u': u, 'cm': _CM, 'o': types.SimpleNamespace(x=0), 'd': (lambda **k: None),
+         '__name__': 'c03prog'}
     try:
         exec(code, g)
     except NameError as e:       # UnboundLocalError is a subclass
@@ -702,7 +718,9 @@ def analyse(shape, style):
     occ, kinds = occurrences(text)
     # the symtable view: same program with generator expressions instead of inlined
     # comprehensions (3.12's symtable merges inlined comprehensions into their parent)
-    rg = Render(shape, 'gen', r.dead) if style != 'gen' else r
+    base, _, distract = style.partition('+')
+    rg = Render(shape, 'gen' + ('+' + distract if distract else ''), r.dead) \
+        if base != 'gen' else r
     tabs = tables(rg.text)
     occ_g, kinds_g = (occurrences(rg.text) if rg is not r else (occ, kinds))
     if [(o['role'], o['path']) for o in occ] != [(o['role'], o['path']) for o in occ_g] \
@@ -745,7 +763,7 @@ def analyse(shape, style):
             if st_owner is not None and kinds[st_owner] == 'C' and rt_owner == () \
                     and o['path'] == st_owner:
                 fall = True
-            elif rt_owner is not None and kinds[rt_owner] == 'G' and style != 'gen' \
+            elif rt_owner is not None and kinds[rt_owner] == 'G' and base != 'gen' \
                     and o['path'][:len(rt_owner)] != rt_owner:
                 # CPython 3.12.1 (PEP 709 inlining) leaks the iteration variable of a
                 # comprehension into a class body when a closure captures it; 3.11 and
@@ -774,5 +792,6 @@ def analyse(shape, style):
     for o in occ:
         sites.append({'pos': o['pos'], 'role': o['role'], 'path': o['path'],
                       'owner': own[o['pos']]})
-    return {'text': text, 'uses': uses, 'sites': sites, 'kinds': kinds,
+    return {'text': text, 'uses': uses, 'sites': sites, 'distractors': r.distractors,
+            'kinds': kinds,
             'dead': sorted(r.dead)}
